@@ -44,7 +44,7 @@ RULE = ("Hypothesis cases {program, order, labels, compact, outer, unroll, obser
         "mapped string, width = max(1, latest end) + 1 and figure size to match, and the multiset of (left edge x, rows) "
         "of its draw components = multiset of (start, rows of the qubits) over the drawable operations (an operation on no qubit, e.g. a barrier over an empty list, has no row and no component), times from the "
         "reference model (relations as built, durations = the drawing's; library part: times a never-plotted twin reports "
-        "under the drawing's durations) - two-qubit gates sharing a start time may be off by <= duration/4; fingerprint "
+        "under the drawing's durations) - two-qubit gates sharing a start time may be off by <= duration/4; every component that spans several rows (barriers, two-qubit gates) is drawn once more on a scratch Axes and the lines / patches it paints must reach from its top row to its bottom row and stay inside their band; fingerprint "
         "(listing signatures, times, duration, acquisition indices) under the outer durations identical before/after and "
         "identical to the twin's; the global duration lookup is the same function object after the call and reports the "
         "outer durations; no figure stays open beyond the returned one; an unknown id in the order raises, leaves no "
@@ -519,6 +519,7 @@ def run(case, ctx, make, program, occ, kinds, unknown: bool):
             check_rows_and_labels(ctx, description, order, labels, occ, facts)
             check_size(ctx, description, fig_size, expected, facts)
             check_placement(ctx, description, components, expected, facts)
+            check_painted(ctx, components, float(description.channel_spacing), facts)
     finally:
         if not env.global_lookup_restored():
             env.force_restore_global_lookup()
@@ -562,6 +563,46 @@ def check_size(ctx, description, fig_size, expected, facts):
     if fig_size is not None and (abs(fig_size[0] - want_w) > 1e-6 or abs(fig_size[1] - want_h) > 1e-6):
         ctx.fail("figure-size", f"figure is {fig_size}, expected [{want_w}, {want_h}] (latest end {latest}, "
                  f"{len(description.channel_indices)} rows)", dict(facts, latest=latest))
+
+
+def check_painted(ctx, components, spacing: float, facts):
+    """What is actually painted: every component is drawn once more on a scratch Axes; the lines and patches it adds must
+    reach every row the component belongs to (from the centre of its top row to the centre of its bottom row) and stay
+    inside the rows' band."""
+    import matplotlib.pyplot as plt
+    import numpy as np
+    if not any(len(component_entry(c, spacing)[1]) >= 2 for c in components):
+        return
+    fig, ax = plt.subplots()
+    try:
+        for comp in components:
+            _, rows, problem = component_entry(comp, spacing)
+            if problem or len(rows) < 2:
+                continue                     # (one-row components cannot miss a row; skipping them keeps the check cheap)
+            n_lines, n_patches = len(ax.lines), len(ax.patches)
+            try:
+                comp.draw(ax)
+            except Exception as e:          # noqa: BLE001
+                ctx.fail(f"raised:{type(e).__name__}", f"drawing {type(comp).__name__} on rows {rows}: {type(e).__name__}: {e}", facts)
+                continue
+            ys = []
+            for line in ax.lines[n_lines:]:
+                ys.extend(float(v) for v in np.asarray(line.get_ydata(), dtype=float).ravel())
+            for patch in ax.patches[n_patches:]:
+                verts = patch.get_patch_transform().transform(patch.get_path().vertices)
+                ys.extend(float(v) for v in verts[:, 1])
+            if not ys:
+                continue                     # text-only component
+            top_centre, bottom_centre = -min(rows) * spacing, -max(rows) * spacing
+            band_top, band_bottom = top_centre + 0.5 * spacing + 1e-6, bottom_centre - 0.5 * spacing - 1e-6
+            if max(ys) < top_centre - 1e-6 or min(ys) > bottom_centre + 1e-6:
+                ctx.fail("painted-extent", f"{type(comp).__name__} on rows {list(rows)} is painted from y={max(ys)} to y={min(ys)}: it does "
+                         f"not reach row {min(rows) if max(ys) < top_centre - 1e-6 else max(rows)} (row centres {top_centre} .. {bottom_centre})", facts)
+            elif max(ys) > band_top or min(ys) < band_bottom:
+                ctx.fail("painted-extent", f"{type(comp).__name__} on rows {list(rows)} is painted from y={max(ys)} to y={min(ys)}, outside "
+                         f"the band of its rows ({band_top} .. {band_bottom})", facts)
+    finally:
+        plt.close(fig)
 
 
 def check_placement(ctx, description, components, expected, facts):
